@@ -1193,6 +1193,74 @@ theorem C19_fx_operand_instances : C19_fx_operand_instances_stmt :=
   ⟨(ParenTokens.parseModel_eval _ 60 [1, 2] _ (by decide +kernel)).1,
    (ParenTokens.parseModel_eval _ 60 [1, 2] _ (by decide +kernel)).1⟩
 
+/-! ### Parentheses around ONE operand, at token level: what is proved, what is not
+
+Proved: the definition-order check counts its diagnostics from the de Bruijn term alone
+(`C19_check_definitions_count`), hence the front-end outcome of a sentence is a function of `resView`
+of the three passes + `resolve` on its parse tree (`C19_front_end_of_resView`): every token-level
+rewrite statement about two sentences reduces to the tree-level statement about
+`RewriteMore.reassocResolve`.  NOT proved (bare statement below): that the parse trees of `… x …` and
+`… ( x ) …` are taken to the same `resView` — this needs a congruence of the three passes for trees
+that differ in ranges and in the `group` flag of one atom (`C19_paren_operand` is one node of it). -/
+
+/-- **The number of definition-order diagnostics only depends on the de Bruijn term**: two resolved
+terms with the same `.erase` (they may differ in every source range), started with error vectors of
+the same length, give the same failure or error vectors of the same length. -/
+def C19_check_definitions_count_stmt : Prop :=
+  ∀ (t u : RTm) (depth : Nat) (e1 e2 : List PErr), t.erase = u.erase → e1.length = e2.length →
+    (checkDefinitions t depth e1).map List.length = (checkDefinitions u depth e2).map List.length
+theorem C19_check_definitions_count : C19_check_definitions_count_stmt :=
+  ParenTokens.checkDefinitions_cnt
+
+/-- **Reduction of token-level rewrites to the passes.**  For ANY two sentences `toks`, `toks'` with
+parse trees `t`, `t'`: if the three re-association passes followed by name resolution (from the
+initial state of the parameter context) take `t'` and `t` to the same `resView` (de Bruijn term,
+context, hole counter, number of scope errors), then `parse` gives the same outcome on both token
+arrays up to ranges (`ParenTokens.outE`: the accepted de Bruijn term, or the number of diagnostics, or
+panic / out of fuel) — the parse phase by completeness, the definition-order check by
+`C19_check_definitions_count`. -/
+def C19_front_end_of_resView_stmt : Prop :=
+  ∀ (toks toks' : Array PTok) (t t' : Src) (context : List Name),
+    SegT toks .term 0 toks.size t → SegT toks' .term 0 toks'.size t' →
+    (RewriteMore.reassocResolve t' (initialContext context).length (ParenTokens.st0 context)).map
+        RewriteMore.resView =
+      (RewriteMore.reassocResolve t (initialContext context).length (ParenTokens.st0 context)).map
+        RewriteMore.resView →
+    ParenTokens.outE (parseModel toks' context) = ParenTokens.outE (parseModel toks context)
+theorem C19_front_end_of_resView : C19_front_end_of_resView_stmt :=
+  fun _ _ _ _ context h h' hr => ParenTokens.parseModel_of_resView context h h' hr
+
+-- non-vacuity: ` f x + 1` against `(f x + 1)` satisfy the hypotheses (by `C19_paren_whole`)
+example : ParenTokens.outE (parseModel (ParenTokens.wrapParens C19_fxToks C19_lp C19_rp) [1, 2]) =
+    ParenTokens.outE (parseModel C19_fxToks [1, 2]) := by
+  obtain ⟨_, t, ht⟩ := C19_fx_plain
+  exact C19_front_end_of_resView _ _ t _ [1, 2] ht (ParenTokens.segT_wrap C19_lp C19_rp rfl rfl ht)
+    (C19_paren_whole t _ _ _ (ParenTokens.wrapTree_variant _ _ _ t))
+
+/-- **NOT PROVED (bare statement).**  Parentheses around one operand: if `toks` is a sentence, the
+segment `[a, b)` is an `atom` segment, and the array with that segment in parentheses
+(`ParenTokens.spliceParens`, two more tokens) is a sentence too (this excludes an identifier token
+used as a binder: `x => y` ↦ `(x) => y`), then `parse` gives the same outcome on both up to ranges.
+By `C19_front_end_of_resView` what is missing is the equality of `resView` after the three passes
+and `resolve` for the two parse trees. -/
+def C19_paren_operand_tokens_stmt : Prop :=
+  ∀ (toks : Array PTok) (t t' s : Src) (a b : Nat) (lp rp : PTok) (context : List Name),
+    lp.kind = .leftParen → rp.kind = .rightParen →
+    SegT toks .term 0 toks.size t → SegT toks .atom a b s →
+    SegT (ParenTokens.spliceParens toks a b lp rp) .term 0
+      (ParenTokens.spliceParens toks a b lp rp).size t' →
+    ParenTokens.outE (parseModel (ParenTokens.spliceParens toks a b lp rp) context) =
+      ParenTokens.outE (parseModel toks context)
+
+-- an instance of the unproved statement's conclusion: `f x + 1` ↦ `f ( x ) + 1`
+example : ParenTokens.spliceParens C19_fxToks 1 2 ⟨.leftParen, ⟨2, 3⟩⟩ ⟨.rightParen, ⟨4, 5⟩⟩ =
+    #[⟨.identifier 1, ⟨1, 2⟩⟩, ⟨.leftParen, ⟨2, 3⟩⟩, ⟨.identifier 2, ⟨3, 4⟩⟩, ⟨.rightParen, ⟨4, 5⟩⟩,
+      ⟨.plus, ⟨5, 6⟩⟩, ⟨.integerLiteral 1, ⟨7, 8⟩⟩] := by decide +kernel
+example : ∃ r, parseModel (ParenTokens.spliceParens C19_fxToks 1 2 ⟨.leftParen, ⟨2, 3⟩⟩
+      ⟨.rightParen, ⟨4, 5⟩⟩) [1, 2] = .ok r ∧
+    r.erase = .bin .sum (.app (.var 1 1) (.var 2 0)) (.lit 1) :=
+  (ParenTokens.parseModel_eval _ 60 [1, 2] _ (by decide +kernel)).1
+
 end ParenTokensSection
 
 /-! ## Consistent renaming of bound variables, at source level
